@@ -5,6 +5,8 @@
 // (QueryHandler.convertSQLToStoragePaths -> buildReadParquetExpr -> PartitionPruner) and executes
 // the resulting SQL on a real DuckDB (internal/database) twice: pruning enabled and disabled.
 // The time columns are TIMESTAMP WITH TIME ZONE, as in production (arrow timestamp[us, UTC]).
+// A statement may carry a controlled clock: the pruner then reads it through verifNow() and the
+// NOW()/CURRENT_TIMESTAMP of the executed SQL are replaced by the same instant.
 // Observations (row ids) go to $VERIF_OUT.
 package api
 
@@ -14,11 +16,13 @@ import (
 	"fmt"
 	"os"
 	"path/filepath"
+	"regexp"
 	"strings"
 	"testing"
 	"time"
 
 	"github.com/basekick-labs/arc/internal/database"
+	"github.com/basekick-labs/arc/internal/pruning"
 	"github.com/basekick-labs/arc/internal/storage"
 	"github.com/rs/zerolog"
 )
@@ -37,9 +41,27 @@ type verifPqFile struct {
 	Rows []verifPqRow `json:"rows"`
 }
 
+type verifPqQuery struct {
+	SQL string `json:"sql"`
+	Now int64  `json:"now"` // controlled clock (microseconds); 0 = wall clock
+}
+
 type verifPqIn struct {
-	Files   []verifPqFile `json:"files"`
-	Queries []string      `json:"queries"`
+	Files   []verifPqFile  `json:"files"`
+	Queries []verifPqQuery `json:"queries"`
+	Prims   []string       `json:"prims"` // statements returning BIGINT columns (validation of model primitives)
+}
+
+// verifPqNow matches DuckDB's clock functions in the statement that is EXECUTED; under a
+// controlled clock they are replaced by the instant the pruner saw (pruning.VerifClockMicros),
+// so that both sides of the comparison use the same "now".
+var verifPqNow = regexp.MustCompile(`(?i)\bNOW\s*\(\s*\)|\bCURRENT_TIMESTAMP\b`)
+
+func verifPqClock(sql string, now int64) string {
+	if now == 0 {
+		return sql
+	}
+	return verifPqNow.ReplaceAllString(sql, fmt.Sprintf("(make_timestamp(%d)::TIMESTAMPTZ)", now))
 }
 
 type verifPqOut struct {
@@ -51,6 +73,12 @@ type verifPqOut struct {
 	SQLPruned string  `json:"sql_pruned,omitempty"`
 	WasPruned bool    `json:"was_pruned"`
 	Ms        int64   `json:"ms"`
+}
+
+type verifPqResult struct {
+	Queries []verifPqOut `json:"queries"`
+	Prims   [][][]string `json:"prims"`
+	PrimErr []string     `json:"prim_err"`
 }
 
 func verifPqIDs(db *database.DuckDB, q string) ([]int64, error) {
@@ -80,7 +108,8 @@ func TestVerifPruningQuery(t *testing.T) {
 		t.Fatal(err)
 	}
 	outs := make([]verifPqOut, len(in.Queries))
-	if len(in.Queries) > 0 {
+	res := verifPqResult{Prims: make([][][]string, len(in.Prims)), PrimErr: make([]string, len(in.Prims))}
+	if len(in.Queries) > 0 || len(in.Prims) > 0 {
 		dir := t.TempDir()
 		base := filepath.Join(dir, "data")
 		logger := zerolog.New(os.Stderr).Level(zerolog.Disabled)
@@ -116,15 +145,47 @@ func TestVerifPruningQuery(t *testing.T) {
 				t.Fatalf("writing %s: %v", f.Dir, err)
 			}
 		}
+		for i, q := range in.Prims {
+			rows, err := db.Query(q)
+			if err != nil {
+				res.PrimErr[i] = err.Error()
+				continue
+			}
+			cols, _ := rows.Columns()
+			out := [][]string{}
+			for rows.Next() {
+				vals := make([]int64, len(cols))
+				ptrs := make([]interface{}, len(cols))
+				for k := range vals {
+					ptrs[k] = &vals[k]
+				}
+				if err := rows.Scan(ptrs...); err != nil {
+					res.PrimErr[i] = err.Error()
+					break
+				}
+				r := make([]string, len(cols))
+				for k := range vals {
+					r[k] = fmt.Sprint(vals[k])
+				}
+				out = append(out, r)
+			}
+			rows.Close()
+			res.Prims[i] = out
+		}
 		h := NewQueryHandler(db, backend, logger, 0, 0)
 		ctx := context.Background()
-		for i, q := range in.Queries {
+		for i, qq := range in.Queries {
+			q := qq.SQL
 			o := &outs[i]
 			t0 := time.Now()
 			h.pruner.VerifSetEnabled(true)
 			h.pruner.InvalidateAllCaches()
-			o.NowUs = time.Now().UnixMicro()
-			sqlP := h.convertSQLToStoragePaths(ctx, q)
+			pruning.VerifClockMicros = qq.Now
+			o.NowUs = qq.Now
+			if qq.Now == 0 {
+				o.NowUs = time.Now().UnixMicro()
+			}
+			sqlP := verifPqClock(h.convertSQLToStoragePaths(ctx, q), qq.Now)
 			o.WasPruned = !strings.Contains(sqlP, "/**/*.parquet")
 			if len(sqlP) > 600 {
 				o.SQLPruned = sqlP[:600]
@@ -137,7 +198,7 @@ func TestVerifPruningQuery(t *testing.T) {
 			}
 			o.Pruned = ids
 			h.pruner.VerifSetEnabled(false)
-			sqlU := h.convertSQLToStoragePaths(ctx, q)
+			sqlU := verifPqClock(h.convertSQLToStoragePaths(ctx, q), qq.Now)
 			ids, err = verifPqIDs(db, sqlU)
 			if err != nil {
 				o.ErrU = err.Error()
@@ -146,8 +207,10 @@ func TestVerifPruningQuery(t *testing.T) {
 			h.pruner.VerifSetEnabled(true)
 			o.Ms = time.Since(t0).Milliseconds()
 		}
+		pruning.VerifClockMicros = 0
 	}
-	b, err := json.Marshal(outs)
+	res.Queries = outs
+	b, err := json.Marshal(res)
 	if err != nil {
 		t.Fatal(err)
 	}
